@@ -56,3 +56,47 @@ pub fn vcast_usize_f64(n: usize) -> (r: f64)
 // ---- A4: f64::is_nan is "x != x" (IEEE) ----
 pub assume_specification[ f64::is_nan ](x: f64) -> (r: bool)
     ensures r == !feq(x, x);
+
+// ---- R-ext helper (verified, not assumed): HashSet::iter yields each element of the set exactly once.  vstd's contract
+//      for HashSet::iter gives length, distinctness and coverage of the prophetic sequence; membership of every yielded
+//      element follows by cardinality (lemma_pigeon). ----
+pub mod setiter {
+use vstd::prelude::*;
+use vstd::std_specs::iter::IteratorSpec;
+use std::collections::HashSet;
+pub proof fn lemma_pigeon(src: Seq<&usize>, s: Set<usize>)
+    requires s.finite(), src.len() == s.len(),
+        forall|x: usize| s.contains(x) ==> exists|k: int| 0 <= k < src.len() && *#[trigger] src[k] == x,
+        forall|a: int, b: int| 0 <= a < src.len() && 0 <= b < src.len() && a != b ==> *src[a] != *src[b],
+    ensures forall|k: int| 0 <= k < src.len() ==> s.contains(*#[trigger] src[k]),
+{
+    let m = Seq::new(src.len(), |k: int| *src[k]);
+    assert(m.no_duplicates());
+    m.unique_seq_to_set();
+    let ms = m.to_set();
+    assert forall|x: usize| s.contains(x) implies ms.contains(x) by {
+        let k = choose|k: int| 0 <= k < src.len() && *#[trigger] src[k] == x;
+        assert(m[k] == x);
+    }
+    assert(s.subset_of(ms));
+    vstd::set_lib::lemma_subset_equality(s, ms);
+    assert forall|k: int| 0 <= k < src.len() implies s.contains(*#[trigger] src[k]) by {
+        assert(m[k] == *src[k]);
+        assert(ms.contains(m[k]));
+    }
+}
+pub fn vset_iter<'a>(s: &'a HashSet<usize>) -> (it: std::collections::hash_set::Iter<'a, usize>)
+    ensures
+        it.remaining().len() == s@.len(),
+        it.remaining().no_duplicates(),
+        forall|k: int| 0 <= k < it.remaining().len() ==> s@.contains(*#[trigger] it.remaining()[k]),
+        forall|x: usize| s@.contains(x) ==> exists|k: int| 0 <= k < it.remaining().len() && *#[trigger] it.remaining()[k] == x,
+        it.obeys_prophetic_iter_laws(), it.decrease() is Some,
+{
+    let it = s.iter();
+    assert(forall|a: int, b: int| 0 <= a < it.remaining().len() && 0 <= b < it.remaining().len() && a != b ==> *it.remaining()[a] != *it.remaining()[b]);
+    proof { lemma_pigeon(it.remaining(), s@); }
+    it
+}
+}
+pub use setiter::vset_iter;
